@@ -385,3 +385,30 @@ Print Assumptions C15_source_get_implicit_users_for_permission.
 Example C15_source_implicit_users_example :
   snd (ImplUsersLang.urun k_rbac15 [1008; 1011] 30 ImplUsersGen.implicit_users_gen ex_state) = Ok [1004].
 Proof. vm_compute. reflexivity. Qed.
+
+(* ---------- get_implicit_users_for_resource / _by_domain, from the source ----------
+   regenerated from casbin/enforcer.py on this run (coq/gen/ImplResourceGen.v; recognised steps, the methods they call compared
+   with their recognised bodies), executed by RsrcLang's interpreter: result, threaded role manager and errors are those of
+   Mgmt.users_for_resource on the roles list each method starts from (by domain: on a kind with a domain column). *)
+From PyCasbin Require RsrcLang RsrcTie.
+From PyCasbinGen Require ImplResourceGen.
+
+Theorem C15_source_get_implicit_users_for_resource : forall k s res,
+  RsrcLang.rrun k s res None 40 ImplResourceGen.users_for_resource_gen =
+  match values_for_field (m_g s) 1 [] with
+  | Err c => Err c
+  | Ok roles => users_for_resource k (m_rm s) roles res None (m_p s) []
+  end.
+Proof. exact RsrcTie.tie_users_for_resource. Qed.
+Print Assumptions C15_source_get_implicit_users_for_resource.
+
+Theorem C15_source_get_implicit_users_for_resource_by_domain : forall k s res d, k_dom k = true ->
+  RsrcLang.rrun k s res (Some d) 40 ImplResourceGen.users_for_resource_by_domain_gen =
+  users_for_resource k (m_rm s) (roles_by_domain (m_g s) d) res (Some d) (m_p s) [].
+Proof. exact RsrcTie.tie_users_for_resource_by_domain. Qed.
+Print Assumptions C15_source_get_implicit_users_for_resource_by_domain.
+
+Example C15_source_users_for_resource_example :
+  match RsrcLang.rrun k_rbac15 ex_state 1008 None 40 ImplResourceGen.users_for_resource_gen with
+  | Ok (l, _) => l = [[1006; 1008; 1011]; [1004; 1008; 1011]] | Err _ => False end.
+Proof. vm_compute. reflexivity. Qed.
